@@ -34,6 +34,7 @@ func RunTamper(s *kernel.Sim, prof *Profile) *Env {
 		return e
 	}
 	n := t.Range(1, 5)
+	var images [][]byte // the file after each successful save
 	for i := 0; i < n; i++ {
 		op := e.GenOp([]int{0, 0, 0, 0, 0, 6, 2, 1, 1}, false)
 		if op.Kind == model.OpPut && len(op.Value) > 200 {
@@ -45,6 +46,9 @@ func RunTamper(s *kernel.Sim, prof *Profile) *Env {
 		}
 		e.tracef("%s -> %s", op, res)
 		e.Ops++
+		if img := e.ReadFile(); len(images) == 0 || !bytes.Equal(images[len(images)-1], img) {
+			images = append(images, img)
+		}
 	}
 	// the audit log file is secret-bearing too (names): owner-only at creation
 	if aw, err := audit.NewFile(filepath.Join(e.Dir, "audit.log")); err == nil {
@@ -62,9 +66,41 @@ func RunTamper(s *kernel.Sim, prof *Profile) *Env {
 		return e
 	}
 
+	// A save that was killed between writing its temporary file and the
+	// rename leaves a complete, valid image beside the database - of a state
+	// nobody was told was committed, or by now of a long superseded one.
+	// Nothing removes such files. Half of the runs have one lying around.
+	var leftover []byte
+	if t.Bool(1, 2) {
+		var cands [][]byte
+		for _, img := range images {
+			if !bytes.Equal(img, orig) {
+				cands = append(cands, img)
+			}
+		}
+		// ... and the image of a write that was never acknowledged
+		p3 := filepath.Join(e.Dir, "unacked.db")
+		os.WriteFile(p3, orig, 0o600)
+		if d3, err := db.Open(p3, e.KEK, audit.New(discard{})); err == nil {
+			if _, err := d3.Put(e.Super.dbc, e.Names[0], []byte("never acknowledged")); err == nil {
+				if b, err := os.ReadFile(p3); err == nil && !bytes.Equal(b, orig) {
+					cands = append(cands, b)
+				}
+			}
+		}
+		os.Remove(p3)
+		if len(cands) > 0 {
+			leftover = cands[t.Choice(len(cands))]
+			os.WriteFile(filepath.Join(e.Dir, fmt.Sprintf("tampered.db.tmp%d", 100000+t.Choice(899999))), leftover, 0o600)
+			s.Fault("leftover-temporary")
+		}
+	}
 	mustFail := false
 	tryOpen := func(what string, data []byte, kek *KEK) {
 		p := filepath.Join(e.Dir, "tampered.db")
+		if leftover != nil {
+			what += " (with the temporary file of an interrupted save beside it)"
+		}
 		os.WriteFile(p, data, 0o600)
 		defer func() {
 			if r := recover(); r != nil {
